@@ -41,6 +41,7 @@ class C12(Check):
         A.append(("extra", b"e", Opts(method=0)))
         A.append(("extra", b"e", Opts(method=8, level=100)))
         A.append(("extra", b"e", Opts(method=93, large=True)))
+        A.append(("extra", b"el", Opts(method=0, large=True)))
         for al in (0, 4, 64):
             A.append(("aligned", b"al", Opts(method=0), al))
         # the ZipCrypto option on every kind of entry (D21: extra data / alignment used to panic with it)
@@ -48,6 +49,8 @@ class C12(Check):
         A.append(("extra", b"ence", Opts(method=8, pw=b"pw")))
         A.append(("aligned", b"enca", Opts(method=0, pw=b"pw"), 64))
         A.append(("dir", b"encd", Opts(pw=b"pw")))
+        # a name that does not fit its 16-bit length field: refused, and the refusal must leave the pending entry alone
+        A.append(("file", b"N" * 65536, Opts(method=0)))
         for c in (b"", b"xyz", GOOD_EXTRA, BAD_EXTRAS[0], BAD_EXTRAS[3]):
             A.append(("write", c))
         A += [("endlocal",), ("endextra",), ("dir", b"d", Opts()), ("symlink", b"l", b"t", Opts()), ("comment", b"cm"),
@@ -75,6 +78,13 @@ class C12(Check):
             if r.random() < 0.2:
                 ops.insert(r.randrange(len(ops)), ("write", r.choice(more)))
             progs.append(ops)
+        # every way to start an entry, carried through a complete legal (or would-be legal) life: extra data, central-only
+        # part, content, a following entry, finish -- the deep sequences the exhaustive depth does not reach
+        for st in [a_ for a_ in A if a_[0] in ("file", "extra", "aligned")]:
+            progs.append([st, ("write", GOOD_EXTRA), ("endextra",), ("write", b"xyz"), ("finish",)])
+            progs.append([st, ("write", GOOD_EXTRA), ("endlocal",), ("write", GOOD_EXTRA), ("endextra",), ("write", b"xyz"), ("file", b"next", Opts()), ("write", b"xyz"), ("finish",)])
+            progs.append([("rawcopy", src, 0, None), st, ("write", b"xyz"), ("rawcopy", src, 1, b"renamed"), ("finish",)])
+            progs.append([st, ("endextra",), ("write", b"xyz"), ("dir", b"d", Opts()), ("finish",)])
         # the encryption option: only start_file + write*
         for m in (0, 8):
             progs.append([("file", b"enc", Opts(method=m, pw=b"pw")), ("write", b"secret"), ("write", b" data"), ("file", b"plain", Opts()), ("write", b"p"), ("finish",)])
@@ -120,6 +130,8 @@ class C12(Check):
                         cur["content"] += bytes.fromhex(op[1])
             elif k in ("file", "extra", "aligned"):
                 if ok:
+                    if len(op[1]) > 2 * 65535:
+                        return "a name of more than 65,535 bytes was accepted"
                     if op[2] not in (0, 8, 12, 93):
                         return "an unsupported method was accepted"
                     # with extra data the compressor is only set up by end_extra_data: the level error surfaces there
@@ -131,7 +143,9 @@ class C12(Check):
                     in_extra = k == "extra"
                 else:
                     # a failed start leaves the previous entry's mode in place (e.g. stuck in extra-data mode)
-                    if k == "file" and op[2] in (0, 8, 12, 93) and (op[3] is None or op[2] == 0) and not finished and not any(
+                    if k == "file" and len(op[1]) > 2 * 65535:
+                        pass           # a name beyond the 16-bit limit is documented misuse: refused
+                    elif k == "file" and op[2] in (0, 8, 12, 93) and (op[3] is None or op[2] == 0) and not finished and not any(
                             (isinstance(c, list) and c and c[0] == "Err") for c in calls[:idx0]) and not any(
                             o[0] in ("extra", "aligned") for o in ops[:idx0]):
                         return "a valid start_file failed in a fresh state: %s" % res
